@@ -159,6 +159,16 @@ def C07(rep, prog, tier):
     _run(rep, part.check_all, ex)
     _encoding_and_enumeration(rep, ex)
     _run(rep, wrappers.manager_init, ex, roles=("belief_base", "inference_system", "weakly"))
+    # the answer given in front of every operator (the shared short cut) in the extended mode as well: it follows from the
+    # query alone, whatever the base makes infeasible
+    _run(rep, wrappers.shortcut_guard, ex)
+    # nothing an operator asserts for one query stays in a constraint object that the next query finds
+    rep.only = {"STATE.solver-per-query"}
+    try:
+        for site, paths in _operator_inference_paths(rep, ex, table):
+            _run(rep, wrappers.solver_per_query, site, paths)
+    finally:
+        rep.only = None
 
 
 def _mcs_operators(rep, ex, table, strict=True, extended=True, rec=True):
@@ -411,6 +421,7 @@ def C14(rep, prog, tier):
         cls = _class_of(table, key)
         if cls:
             _run(rep, enum.z3mcs, ex, cls)
+            _run(rep, enum.budgeted_checks, ex, mcsops.Backend("z3", cls, lex=(key[0] == "lex_inf")))
     _run(rep, wrappers.timeout_flow, ex)
     _run(rep, wrappers.rows, ex, which=("single", "worker", "multi"), rules=("TIMEOUT.row", "TIMEOUT.per-query"))
     _run(rep, wrappers.refuse, ex, rules=("TIMEOUT.row", "TIMEOUT.flow", "PREPROC.once"))
@@ -450,6 +461,7 @@ def C15(rep, prog, tier):
     _run(rep, enum.block, ex)
     _run(rep, enum.minimal, ex)
     _run(rep, enum.loop, ex)
+    _run(rep, enum.shared_defaults, ex)
 
 
 def C05(rep, prog, tier):
@@ -551,6 +563,7 @@ def C20(rep, prog, tier):
     _run(rep, preocf.impacts_factories, ex)
     _run(rep, preocf.format_agree, ex)
     _run(rep, preocf.memo_audit, ex, "STATE.pickled")
+    _run(rep, preocf.load_rebuild, ex)
 
 
 def C10(rep, prog, tier):
@@ -563,6 +576,7 @@ def C10(rep, prog, tier):
     _run(rep, parser_rules.lexer_atn, ex, g)
     _run(rep, parser_rules.visitor_meaning, ex)
     _run(rep, parser_rules.reject, ex, g)
+    _run(rep, parser_rules.fresh_results, ex)
 
 
 def C06(rep, prog, tier):
